@@ -49,8 +49,9 @@ class TlcRun:
         m = re.search(r"Error: Action property (\S+) is violated", out)
         if m:
             self.kind, self.violated = "property", m.group(1)
-        if "Error: Temporal properties were violated" in out:
-            self.kind, self.violated = "temporal", "temporal"
+        m = re.search(r"Error: Temporal propert(?:y (\S+) was|ies were) violated", out)
+        if m:
+            self.kind, self.violated = "temporal", (m.group(1) or "temporal")
         if "Error: Deadlock reached" in out:
             self.kind, self.violated = "deadlock", "deadlock"
         m = re.search(r"Error: The postcondition (\S+)?.*(is|was) (false|violated)", out)
